@@ -91,6 +91,12 @@ def ktmon(flavour):
         env["CARGO_TARGET_DIR"] = os.path.join(CACHE, "target-harness")
         _cargo(["cargo", "build", "--profile", "checked", "-p", "ktmon"], env, "ktmon[D]")
         path = os.path.join(CACHE, "target-harness", "checked", "ktmon")
+    elif flavour == "O0":
+        # unoptimised build (cargo's dev profile: opt-level 0, debug assertions, overflow checks): loads and stores that an
+        # optimiser deletes as dead are really executed, so that a guard page or a precondition check can see them
+        env["CARGO_TARGET_DIR"] = os.path.join(CACHE, "target-harness")
+        _cargo(["cargo", "build", "-p", "ktmon"], env, "ktmon[O0]")
+        path = os.path.join(CACHE, "target-harness", "debug", "ktmon")
     elif flavour == "A":
         env["CARGO_TARGET_DIR"] = os.path.join(CACHE, "target-asan")
         env["RUSTFLAGS"] = "-Zsanitizer=address -Cforce-frame-pointers=yes"
@@ -273,6 +279,12 @@ def run_R(prop, st, tier, seed, work):
 
 def run_D(prop, st, tier, seed, work):
     r = run_ktmon_stage(prop, st, tier, seed, work, "D")
+    r.pop("_stderr", None)
+    return r
+
+
+def run_O0(prop, st, tier, seed, work):
+    r = run_ktmon_stage(prop, st, tier, seed, work, "O0")
     r.pop("_stderr", None)
     return r
 
@@ -557,7 +569,7 @@ def run_PY(prop, st, tier, seed, work):
     return res
 
 
-RUNNERS = {"R": run_R, "D": run_D, "A": run_A, "T": run_T, "V": run_V, "VM": run_VM, "M": run_M, "PY": run_PY}
+RUNNERS = {"R": run_R, "D": run_D, "O0": run_O0, "A": run_A, "T": run_T, "V": run_V, "VM": run_VM, "M": run_M, "PY": run_PY}
 
 
 def replay(path):
